@@ -799,6 +799,14 @@ impl<'a> Gen<'a> {
             };
             self.funcs.push((name, kinds));
             if defs_first {
+                // sometimes the previous line is a lone DEF: put this one behind it on the same line
+                let join = self.k.multi_stmt
+                    && self.rng.chance(1, 3)
+                    && matches!(self.lines.last().map(|l| l.as_slice()), Some([Stmt::Def { .. }]));
+                if join {
+                    self.lines.last_mut().unwrap().push(stmt);
+                    continue;
+                }
                 let mut l = vec![stmt];
                 if self.k.multi_stmt && self.rng.chance(1, 4) {
                     l.push(self.tag());
